@@ -58,7 +58,7 @@ func dropTask(sc *Scenario, t int) *Scenario {
 	c := cloneScenario(sc)
 	var out []Call
 	for _, call := range c.Build {
-		if call.T == t && call.Op != "addnil" && call.Op != "addnoid" {
+		if call.T == t && call.Op != "addnil" && call.Op != "addnoid" && call.Op != "dfs" && call.Op != "validate" && call.Op != "string" {
 			continue
 		}
 		if call.Op == "dep" {
